@@ -14,14 +14,15 @@ def gen_jobs(ctx):
     """GEN runs: (cfg name, cfg text, replay budget, tlc kwargs)."""
     th = ctx.thorough
     wide = dict(npaths=4 if th else 3, kinds=["rec", "alr"], names=["n1", "n2"], bodies=["v1", "v2"], labs=["l1", "l2", "l3"],
-                cmts=["none", "c1"], pads=[0, 1, 2], maxrules=3, maxfork=3, commits=4 if not th else 5, baseadv=1, forkfdis=True)
+                cmts=["none", "c1"], pads=[0, 1, 2], maxrules=3, maxfork=3, commits=4 if not th else 5, baseadv=1, forkfdis=True,
+                tombrename=True)
     return [
         # (1) exhaustive: every history of one file whose rules share one name (the F5 neighbourhood)
         ("c03_gen_dup.cfg", gh.cfg("EmitCase", npaths=1, names=["n1"], bodies=["v1"], labs=["l1", "l2", "l3"],
                                     maxrules=3, maxfork=2, commits=2, ops=DUP_OPS), 300 if not th else 2000, dict(workers=2)),
         # (2) exhaustive: every file-level history over two paths (add / delete / re-add / rename / rename back / revert)
         ("c03_gen_files.cfg", gh.cfg("EmitCase", npaths=2, names=["n1"], bodies=["v1"], labs=["l1", "l2"],
-                                      maxrules=2, maxfork=2, commits=2 if not th else 3, ops=FILE_OPS),
+                                      maxrules=2, maxfork=2, commits=2 if not th else 3, ops=FILE_OPS, tombrename=True),
          300 if not th else 5000, dict(workers=2 if not th else 4)),
         # (3) exhaustive: files entering the linted set from an excluded directory, label removal (l3 -> l1)
         ("c03_gen_excl.cfg", gh.cfg("EmitCase", npaths=4, names=["n1"], bodies=["v1"], labs=["l1", "l3"], maxrules=1,
@@ -39,12 +40,12 @@ def mc_jobs(ctx, mode):
     inv = "Inv_C03" if mode == "twopass" else "Inv_C03_known"
     w = 3 if not th else 5
     runs = [
-        ("c03_mc_dup.cfg", dict(npaths=1, names=["n1", "n2"], bodies=["v1"], labs=["l1", "l2"], maxrules=3, maxfork=2,
-                                commits=2 if not th else 3, ops=DUP_OPS + ["RenameRule"])),
+        ("c03_mc_dup.cfg", dict(npaths=1, names=["n1", "n2"], bodies=["v1"], labs=["l1", "l2"], maxrules=3,
+                                maxfork=2 if not th else 3, commits=2 if not th else 4, ops=DUP_OPS + ["RenameRule"])),
         ("c03_mc_files.cfg", dict(npaths=2, names=["n1"], bodies=["v1"], labs=["l1", "l2"], maxrules=2, maxfork=2,
-                                  commits=3 if not th else 4, ops=FILE_OPS)),
+                                  commits=3 if not th else 5, ops=FILE_OPS)),
         ("c03_mc_excl.cfg", dict(npaths=4, names=["n1"], bodies=["v1"], labs=["l1", "l3"], maxrules=1, maxfork=2,
-                                 commits=2 if not th else 3, ops=["RenameFile", "ModifyLabels", "DeleteFile", "RevertLast", "AddFile"])),
+                                 commits=2 if not th else 4, ops=["RenameFile", "ModifyLabels", "DeleteFile", "RevertLast", "AddFile"])),
     ]
     if th:
         runs.append(("c03_mc_fields.cfg", dict(npaths=2, kinds=["rec", "alr"], names=["n1", "n2"], bodies=["v1", "v2"],
@@ -147,12 +148,13 @@ def run(ctx, cases_override=None):
         "evaluations": sum(len(r["markers"]) for r in trace if r["ev"] == "Finish"),
         "distinct_nontrivial": nontrivial,
         "rule": "distinct = fork tree + (name-status, content) of every commit; non-trivial = >=2 commits or a file-level add/delete/rename/revert",
+        "bound_only_histories": sum(1 for x in tags.get("NDEPS", []) if x[3] == 1),
         "gen": gstats, "commits_max": max(ncommit), "trace_records": len(trace),
         "git_commits_bound": sum(1 for r in trace if r["ev"] == "Commit"),
     }
     return vlib.conclude(ctx, viols, "model_checking", cov, [
         "one file-level operation per commit; renames are pure moves (git prints R100, validated per commit against the model)",
-        "HEAD files always parse; no symlinks; a file is never renamed onto a path deleted earlier on the branch",
+        "HEAD files always parse; no symlinks; histories renaming a file onto a path deleted earlier on the branch carry no verdict (binding only)",
         "observed state = severity of the single rule/report marker matching the rule's (path, first line, last line)",
         "reference: fork-point version vs HEAD version of the file identity (followed through renames; delete + re-add continues the file)",
     ], drift=drift)
